@@ -863,7 +863,6 @@ def gen_source_ref(repo, outdir, notes):
     helpers = [cstr(ast.unparse(n).replace("\n", " ; ")) for n in m.tree.body
                if (isinstance(n, ast.FunctionDef) and n.name.startswith("_"))
                or (isinstance(n, ast.Assign) and ast.unparse(n.targets[0]).startswith("_"))]
-    helpers = [h.replace(' ;     \"\"\"', " ; DOC") for h in helpers]
     text += "Definition sr_private_helpers : list string := " + clist(helpers) + ".\n"
     text += "Definition bf_rest : list string := " + clist([cstr(x) for x in rest_src]) + ".\n\n"
     text += f"Definition li_split : string := {cstr(split_src)}.\n"
